@@ -27,7 +27,7 @@ MOD_CONFIGS = [None, None, None,
 def base_cfg(r, mod="rand"):
     cfg = {"domain": "localhost", "max_clients": r.choice([2, 3, 10]), "max_subs": r.choice([2, 3, 10]),
            "max_payload": r.choice([256, 1024]), "max_inflight": r.choice([1, 3, 10]), "max_message": 1024,
-           "keepalive_ms": 3600000, "min_keepalive_ms": 1000, "max_conns": r.choice([4, 16, 16, 16]), "budget": 1 << 22,
+           "keepalive_ms": 3600000, "min_keepalive_ms": 1000, "max_conns": r.choice([4, 16, 16, 16]), "budget": 1 << 22, "max_channels": r.choice([1, 2, 100, 100]),
            "mod": r.choice(MOD_CONFIGS) if mod == "rand" else mod}
     return cfg
 
@@ -114,7 +114,10 @@ class Gen:
 
     def rid(self):
         self.next_id += 1
-        return self.r.choice([self.next_id, self.next_id, self.next_id, 4294967295]) if self.r.random() < 0.03 else self.next_id
+        if not getattr(self, "used_max_id", False) and self.r.random() < 0.01:
+            self.used_max_id = True      # ids are unique within a history
+            return 4294967295
+        return self.next_id
 
     def send(self, k, data, script=None):
         first = data.split(b" ")[0] in (b"BROADCAST", b"MOD_DIRECT", b"JOIN", b"LEAVE")
@@ -301,10 +304,10 @@ def cfg_term(cfg):
     b = lambda x: "true" if x else "false"
     return ("{| domain := bs \"%s\"; has_mod := %s; op_auth := %s; op_fbp := %s; op_fev := %s; op_spp := %s; proto := bs \"%s\"; "
             "max_clients := %d; max_subs := %d; max_payload_cfg := %d; max_inflight := %d; max_message := %d; keepalive := %d; "
-            "min_keepalive := %d; max_conns := %d; pool_budget := %d |}") % (
+            "min_keepalive := %d; max_conns := %d; pool_budget := %d; max_channels := %d |}") % (
         cfg["domain"], b(m), b("auth" in ops), b("fwd-broadcast-payload" in ops), b("fwd-event" in ops), b("send-private-payload" in ops),
         m["proto"] if m else "", cfg["max_clients"], cfg["max_subs"], cfg["max_payload"], cfg["max_inflight"], cfg["max_message"],
-        cfg["keepalive_ms"], cfg["min_keepalive_ms"], cfg["max_conns"], cfg["budget"])
+        cfg["keepalive_ms"], cfg["min_keepalive_ms"], cfg["max_conns"], cfg["budget"], cfg.get("max_channels", 100))
 
 
 def script_term(sc):
